@@ -57,7 +57,7 @@ theorem succInv_handleMsgs (ms : List Msg) (e : Ep) (hi : SuccInv e) : SuccInv (
     unfold handleMsgs
     split
     · exact hi
-    · exact ih _ (succInv_handleMsg e m hi)
+    · exact ih _ (succInv_handleMsg _ m (succInv_of_eq (e := e) rfl rfl hi))
 
 theorem succInv_recvRaw (e : Ep) (c : Bytes) (hi : SuccInv e) : SuccInv (recvRaw e c).1 := by
   unfold recvRaw
